@@ -8,7 +8,7 @@
 
    plus  mconn_rev / msep_sym (m-connection is symmetric),  acyclicb_spec,  ancestral_undb_spec. *)
 From Coq Require Import List Arith Bool Lia.
-From PG Require Import Base.ListSet Base.Closure Base.Sx Graph.MGraph Graph.MSep.
+From PG Require Import Base.ListSet Base.Closure Graph.MGraph Graph.MSep.
 Import ListNotations.
 
 (* ------------------------------------------------------------------ last_node / steps_ok algebra *)
@@ -122,7 +122,7 @@ Proof.
               reach (children g) (children g a) b).
   { apply closure_spec with (univ := V g); auto using Nat.eqb_eq, children_univ.
     intros x Hx. apply children_In in Hx. destruct Hx as [Hx _]. exact Hx. }
-  rewrite H. split.
+  rewrite H. clear H. split.
   - intros R. induction R as [c Hc|c d R IH Hd].
     + apply children_In in Hc. apply dpl_one; tauto.
     + apply children_In in Hd. apply dpl_snoc with c; tauto.
@@ -204,8 +204,8 @@ Proof.
     + destruct (IH b c Hb Hst Hop) as [H|H].
       * left. apply in_anc_parent with b; assumption.
       * right. apply dpl_cons with b; assumption.
-    + left. apply in_anc_parent with b; try assumption. exact Hc.
-    + left. apply in_anc_parent with b; try assumption. exact Hc.
+    + left. apply in_anc_parent with b; [assumption|assumption|exact Hc].
+    + left. apply in_anc_parent with b; [assumption|assumption|exact Hc].
     + exfalso. destruct Hst as [_ [Hu _]]. cbn [has_step] in Hu.
       destruct (Hanc a b c Hu) as [H _]. congruence.
 Qed.
